@@ -391,6 +391,15 @@ def install(ex, reg):
                     if v.get(k, 0) < c:
                         v[k] = c
 
+    @reg('sx_kill_other_threads')
+    def _kill_others(ex, fr, a, d):
+        st = ex.st
+        for t in st.threads:
+            if t.tid != st.cur and t.status != 'done':
+                t.status = 'done'
+                t.frames = []
+                t.pred = None
+
     @reg('sx_async_flag')
     def _async_flag(ex, fr, a, d):
         ex.async_flag_addr = a[0]
